@@ -26,6 +26,7 @@ OPQ = {'grid2geo', 'geo2grid', 'vincdir', 'vincinv', 'line_sf', 'radiations'}
 
 ORACLE = '''
 from math import sin, sqrt, radians
+from geodepy.constants import utm
 from geodepy.convert import grid2geo, geo2grid
 from geodepy.geodesy import vincdir, vincinv, line_sf, rho, nu
 from geodepy.survey import radiations
@@ -42,8 +43,16 @@ def direct_body(lsf, zone1, east1, north1, grid1to2, grid_dist, hemisphere, elli
     az = grid1to2 - p1[3]
     d = vincdir(p1[0], p1[1], az, grid_dist / lsf, ellipsoid)
     g = geo2grid(d[0], d[1], zone1, ellipsoid)
-    new = line_sf(zone1, east1, north1, g[1], g[2], g[3], hemisphere, ellipsoid)
-    return g[1], g[2], g[3], d[2], new
+    north2 = g[3]
+    # the second point is handed on in the northing convention of the line's hemisphere: geo2grid labels a point on the equator (or an
+    # estimate a few centimetres beyond it) with the other hemisphere and the other false northing
+    if g[0].lower() != hemisphere.lower():
+        if hemisphere.lower() == 'south':
+            north2 = min(north2 + utm.falsenorth, float(utm.falsenorth))
+        else:
+            north2 = max(north2 - utm.falsenorth, 0.0)
+    new = line_sf(zone1, east1, north1, g[1], g[2], north2, hemisphere, ellipsoid)
+    return g[1], g[2], north2, d[2], new
 
 def direct_close(zone2, east2, north2, az2to1, hemisphere, ellipsoid):
     p2 = grid2geo(zone2, east2, north2, hemisphere, ellipsoid)
